@@ -13,10 +13,12 @@ import (
 	"fmt"
 	"net"
 	"os"
+	"runtime"
 	"sort"
 	"strconv"
 	"strings"
 	"sync"
+	"sync/atomic"
 	"time"
 )
 
@@ -404,6 +406,45 @@ func (r *ltsRun) play(ops []string) string {
 					r.closes = append(r.closes, "nil")
 				}
 			}()
+		case "cclose":
+			// n goroutines leave a spin barrier together and call Close(): exactly one closes, the others are told so
+			n := atoi(p[1])
+			var ready, goNow int32
+			resCh := make(chan string, n)
+			for k := 0; k < n; k++ {
+				go func() {
+					defer func() {
+						if p := recover(); p != nil {
+							resCh <- "panic"
+						}
+					}()
+					atomic.AddInt32(&ready, 1)
+					for atomic.LoadInt32(&goNow) == 0 {
+					}
+					if err := r.c.Close(); err != nil {
+						resCh <- errClass(err)
+					} else {
+						resCh <- "nil"
+					}
+				}()
+			}
+			for atomic.LoadInt32(&ready) < int32(n) {
+				runtime.Gosched()
+			}
+			atomic.StoreInt32(&goNow, 1)
+			var rs []string
+			for k := 0; k < n; k++ {
+				select {
+				case x := <-resCh:
+					rs = append(rs, x)
+				case <-time.After(r.waitFor):
+					rs = append(rs, "stuck")
+				}
+			}
+			sort.Slice(rs, func(i, j int) bool { // nil first, as in the model's order
+				return (rs[i] == "nil" && rs[j] != "nil") || (rs[i] != "nil" && rs[j] != "nil" && rs[i] < rs[j])
+			})
+			r.closes = append(r.closes, rs...)
 		case "w":
 			n := atoi(p[1])
 			if !r.waitUntil(func() bool { return r.nframes() >= n }, r.notify) {
